@@ -21,7 +21,8 @@ class Src:
 
     def int(self, name, lo=None, hi=None):
         if self.vals is not None:
-            return int(self.vals[name])
+            # (a replay record holds the inputs that existed when the obligation was stated; later ones default)
+            return int(self.vals.get(name, lo if lo is not None else 0))
         x = core.Int(name)
         self.inputs[name] = x
         if lo is not None:
@@ -32,7 +33,7 @@ class Src:
 
     def real(self, name, lo=None, hi=None):
         if self.vals is not None:
-            return float(self.vals[name])
+            return float(self.vals.get(name, lo if lo is not None else 0.0))
         x = core.Real(name)
         self.inputs[name] = x
         if lo is not None:
@@ -47,7 +48,7 @@ class Src:
         if self.vals is not None:
             a = _np.zeros(shape, dtype=int)
             for idx in _np.ndindex(*shape):
-                a[idx] = int(self.vals['%s_%s' % (name, '_'.join(map(str, idx)))])
+                a[idx] = int(self.vals.get('%s_%s' % (name, '_'.join(map(str, idx))), lo if lo is not None else 0))
             return a
         a = _np.empty(shape, dtype=object)
         for idx in _np.ndindex(*shape):
@@ -60,7 +61,7 @@ class Src:
         if self.vals is not None:
             a = _np.zeros(shape, dtype=float)
             for idx in _np.ndindex(*shape):
-                a[idx] = float(self.vals['%s_%s' % (name, '_'.join(map(str, idx)))])
+                a[idx] = float(self.vals.get('%s_%s' % (name, '_'.join(map(str, idx))), lo if lo is not None else 0.0))
             return a
         a = _np.empty(shape, dtype=object)
         for idx in _np.ndindex(*shape):
